@@ -327,7 +327,7 @@ def _probed(info, i):
 # keys of findings: the failing input (type-annotated expression) prefixed by a syntactic class of the input
 # ---------------------------------------------------------------------------------------------
 CLASS_PRIORITY = ("neg-int-with-unsigned", "neg-of-unsigned", "integer-signal-index", "select-nodefault-stdlogic",
-                  "lit-not-representable-mul", "int-times-unsigned")
+                  "lit-not-representable-mul", "int-times-unsigned", "sub-narrower-rhs")
 # classes whose members have a listed finding that aborts the simulation of a whole entity: checked one by one
 ALONE = ("neg-int-with-unsigned", "neg-of-unsigned", "integer-signal-index", "select-nodefault-stdlogic")
 
@@ -346,6 +346,8 @@ def input_class(tree):
             if lits and any(t[0] == "u" for t in vt) and not (n[0] == "bin" and n[1] in ("shl", "shr")):
                 if any(l[1] < 0 for l in lits):
                     cls.add("neg-int-with-unsigned")
+            if n[0] == "bin" and n[1] == "sub" and len(vt) == 2 and all(V.is_num(t) for t in vt) and vt[1][1] < vt[0][1]:
+                cls.add("sub-narrower-rhs")
             if n[0] == "bin" and n[1] == "mul":
                 nt = [t for t in vt if V.is_num(t)]
                 if lits and nt and any(not V.representable(nt[0], l[1]) for l in lits):
